@@ -11,7 +11,12 @@ EXPLANATION = (
     "start-up path, and in main the set-up call dominates the command dispatch that spawns workers. R2 in run_worker's walker "
     "closure a failed file (Err from produce_item, rejected entry) leads to WalkState::Continue; Quit is only on the failed-send "
     "arm. R3 each produced item is sent exactly once (single send site, fed by the iteration over produce_item's result). "
-    "R4 panic sites of FINDING class reachable from producers (a panic there hangs the process) — none may exist."
+    "R4 panic sites of FINDING class reachable from producers (a panic there hangs the process) — none may exist. R5 one rejection "
+    "authority: which files are skipped for their content (unreadable, empty, non-UTF-8, oversized) is decided by utils::read_file alone — "
+    "it is the only reader of file contents reachable from producers, file_too_large has no other caller, and the directory walkers "
+    "of the scanning commands are configured only with path/configuration based filters (classified table of every WalkBuilder method); a "
+    "metadata- or closure-based walker filter (max_filesize, filter_entry, …) would apply to entries below a root but never to a root "
+    "path and with another criterion than read_file, so a tree scan and the scans of its files alone would disagree."
 )
 NOT_DECIDED = (
     "That the union over files equals per-file runs as values; that the `ignore` walker visits each eligible file exactly once; "
@@ -96,6 +101,7 @@ def run(ctx):
     ctx.rule("R1b", "static mut registries are written only from start-up code, which runs before workers are spawned")
     ctx.rule("R2", "per-file failure isolation: errors continue the walk; Quit only after a failed send")
     ctx.rule("R3", "each produced item is handed to the channel exactly once")
+    ctx.rule("R5", "content-based skipping is decided by read_file alone: sole producer-side reader, sole caller of file_too_large, walkers carry only path/config filters")
     ctx.rule("R4", "no FINDING-class panic site is reachable from producers (a worker panic hangs the process)")
     roots = producer_roots(prog)
     ctx.floor("R1", "producer impls", len(roots), 5)
@@ -253,3 +259,57 @@ def run(ctx):
             if fid in P:
                 hits.append(key)
     ctx.ob("R4", "FINDING-class panic sites reachable from producers", not hits, "%d" % len(hits) if not hits else "a panic on a walker thread is never joined: the consumer blocks forever: %s" % hits[:3])
+
+    r5(ctx, P)
+
+
+# every method of ignore::WalkBuilder (ignore 0.4.23), classified by what the filter looks at
+WALK_PATH_BASED = {"new", "add", "build", "build_parallel", "threads", "follow_links", "overrides", "types", "standard_filters", "hidden", "parents", "ignore",
+                   "git_global", "git_ignore", "git_exclude", "require_git", "ignore_case_insensitive", "add_ignore", "add_custom_ignore_filename",
+                   "max_depth", "sort_by_file_path", "sort_by_file_name", "clone", "fmt"}
+WALK_CONTENT_BASED = {"max_filesize": "drops entries by metadata size (below a root only; read_file rejects on size AND line count)",
+                      "filter_entry": "arbitrary closure over entries (below a root only)",
+                      "same_file_system": "drops entries by device id", "skip_stdout": "drops the file stdout is redirected to"}
+READERS = re.compile(r"^std::fs::(read_to_string|read)$|^std::fs::File::open$|^std::io::Read::read_to_string$|^std::io::Read::read_to_end$")
+
+
+def r5(ctx, P):
+    prog = ctx.prog
+    n = nbad = 0
+    for f in sorted(prog.fns.values(), key=lambda f: f.id):
+        if f.crate != "ast_grep" or not (f.id.startswith("ast_grep::utils::args::") or f.id.startswith("ast_grep::utils::worker::")):
+            continue
+        for c in f.calls:
+            if "ignore::walk::WalkBuilder" not in c.best or c.bb not in f.live_blocks:
+                continue
+            n += 1
+            if c.name in WALK_PATH_BASED:
+                continue
+            why = WALK_CONTENT_BASED.get(c.name)
+            nbad += 1
+            ctx.ob("R5", "walker filter %s in %s" % (c.name, f.id), False,
+                   ("WalkBuilder::%s %s: files are skipped by a second criterion that read_file does not share and that a root path never meets — the findings of a "
+                    "tree no longer equal the union of its files scanned alone" % (c.name, why)) if why else
+                   "WalkBuilder::%s is not in the classified method table of the checker (classify it as path/config based or content based)" % c.name, where=f.loc(c.line))
+    ctx.floor("R5", "WalkBuilder configuration calls of the scanning commands", n, 14)
+    if not nbad:
+        ctx.ob("R5", "scanning walkers use path/config filters only", True, "%d WalkBuilder calls in utils::args, all in the path/configuration class" % n, nontrivial=False)
+    rf = ctx.anchor("R5", r"^ast_grep::utils::read_file$")
+    tl = ctx.anchor("R5", r"^ast_grep::utils::file_too_large$")
+    if rf and tl:
+        callers = sorted({c.fn.root if c.fn.is_closure else c.fn.id for c in prog.call_sites.get(tl.id, [])})
+        ctx.ob("R5", "file_too_large called by read_file only", callers == [rf.id], "callers: %s" % callers, where=tl.loc())
+        readers = sorted({fid for fid in P for c in prog.fns[fid].calls if READERS.search(c.best)})
+        ctx.ob("R5", "read_file is the only reader of file contents on producer threads", readers == [rf.id],
+               "producer-reachable functions that read files: %s" % readers if readers == [rf.id] else
+               "file contents are also read by %s: those paths bypass read_file's empty/oversized/UTF-8 rejection" % [r for r in readers if r != rf.id], where=rf.loc())
+        # rejection = Err on every arm that is not the content: too large -> Err, empty -> Err
+        from ..query import bool_arms, assigns_ret_variant
+        tlc = [c for c in rf.calls if prog.call_targets(c) == [tl.id]]
+        ok = False
+        if tlc:
+            ba = bool_arms(rf, tlc[0])
+            if ba:
+                tb = rf.reachable_from(ba["true"], stop=[ba["false"]])
+                ok = bool(assigns_ret_variant(rf, tb, "Err")) and not assigns_ret_variant(rf, tb, "Ok")
+        ctx.ob("R5", "oversized content is rejected with Err", ok, "the true arm of file_too_large returns Err (counted as a skipped file by run_worker)", where=rf.loc())
